@@ -406,11 +406,35 @@ def gc_fields(ctx, res):
         if sname == "trait_object":
             clone = facts.func("trait_clone")
             copied, increfd = set(), set()
+            setters = _owning_setters(facts)
             for x in clone.walk():
                 if x.kind == "BinaryOperator" and x.op == "=":
                     l = strip(x.ch[0])
+                    r = strip(x.ch[1])
                     if l.kind == "MemberExpr":
                         copied.add(l.name)
+                        res.oblige(r.kind == "MemberExpr"
+                                   and r.name == l.name,
+                                   f"trait_clone:{l.name}:same-field",
+                                   facts.loc(x),
+                                   f"trait_clone fills {l.name} from "
+                                   f"`{cnorm(r)}`")
+                if x.kind == "CallExpr" and callee(x) in setters \
+                        and len(x.ch) == 3:
+                    # helper(&dst->F, src->F): INCREF new, store, XDECREF old
+                    d = strip(x.ch[1])
+                    sv = strip(x.ch[2])
+                    if d.kind == "UnaryOperator" and d.op == "&":
+                        l = strip(d.ch[0])
+                        if l.kind == "MemberExpr":
+                            copied.add(l.name)
+                            increfd.add(l.name)
+                            res.oblige(sv.kind == "MemberExpr"
+                                       and sv.name == l.name,
+                                       f"trait_clone:{l.name}:same-field",
+                                       facts.loc(x),
+                                       f"trait_clone fills {l.name} from "
+                                       f"`{cnorm(sv)}`")
                 if x.kind == "CallExpr" and callee(x) in ("Py_XINCREF",
                                                           "Py_INCREF"):
                     a = strip(x.ch[1])
@@ -431,6 +455,38 @@ def gc_fields(ctx, res):
                            f"trait_clone copies {f} without taking a "
                            f"reference (double release on dealloc)")
     res.floor(12)
+
+
+def _owning_setters(facts):
+    """in-file helpers `h(PyObject **field, PyObject *value)` that take a
+    reference to ``value``, store it through ``field`` and release the old
+    content afterwards (in that order)"""
+    out = set()
+    for fname in facts.defined_functions():
+        ps = facts.params(fname)
+        if len(ps) != 2 or "**" not in (ps[0].type or "").replace(" ", ""):
+            continue
+        fieldp, valp = ps[0].name, ps[1].name
+        seq = []
+        for x in facts.func(fname).walk():
+            if x.kind == "CallExpr" and callee(x) in ("Py_XINCREF",
+                                                      "Py_INCREF"):
+                a = strip(x.ch[1])
+                if a.kind == "DeclRefExpr" and a.ref == valp:
+                    seq.append("inc")
+            if x.kind == "BinaryOperator" and x.op == "=":
+                l = strip(x.ch[0])
+                r = strip(x.ch[1])
+                if l.kind == "UnaryOperator" and l.op == "*" \
+                        and strip(l.ch[0]).kind == "DeclRefExpr" \
+                        and strip(l.ch[0]).ref == fieldp \
+                        and r.kind == "DeclRefExpr" and r.ref == valp:
+                    seq.append("store")
+            if x.kind == "CallExpr" and callee(x) in ("Py_XDECREF",):
+                seq.append("dec")
+        if seq == ["inc", "store", "dec"]:
+            out.add(fname)
+    return out
 
 
 # ---------------------------------------------------------------------------
